@@ -379,6 +379,14 @@ def _evaluate(ctx, cases, with_model):
             elif any(v["reordered"] for v in val):
                 ctx.count("xarray_result_dims_reordered")
             f = oracle(c, st, val)
+            if (f is None and st != "error" and any(v["reordered"] for v in val) and not c.get("batches")
+                    and len({len(_shape_of(a)) for a in c["args"]}) == 1
+                    and (c["op"] in ("stack", "concat", "take") or len(c["args"]) == 1)):
+                # the comparison sorts the d-dimensions of an xarray result (named broadcasting may permute them); for stack,
+                # concat, take and one-argument calls on operands of ONE rank NumPy fixes the position of every axis
+                f = ({"kind": "value", "op": c["op"], "backend": c["backend"], "cause": "dimension-order"},
+                     "%s on %s: the dimensions of the xarray result are not in NumPy's axis order (axis=%r): values agree only after transposing"
+                     % (c["op"], c["backend"], c.get("axis")))
             if f is not None:
                 key = json.dumps(f[0], sort_keys=True)
                 ctx.count("oracle_fail:" + f[0]["kind"] + (":" + f[0]["cause"] if "cause" in f[0] else ""))
@@ -437,6 +445,14 @@ def _evaluate(ctx, cases, with_model):
             ctx.count("disagree:" + c["op"])
             if ndis <= 20:
                 ctx.disagree("backend-op" + ("-batched" if c.get("batches") else ""), c, model, impl if st == "ok" else list(val))
+
+
+def _shape_of(a):
+    sh = []
+    while isinstance(a, list):
+        sh.append(len(a))
+        a = a[0] if a else None
+    return sh
 
 
 def correspond(ctx):
